@@ -29,6 +29,7 @@ def run(F, rep):
     rep.run(dt_graph.get_valid_exts_table, F, rep, "C02.4")
     rep.run(dt_graph.fix_exts_table, F, rep, "C02.4")
     rep.run(dt_graph.censor_tables, F, rep, "C02.4")
+    rep.run(dt_graph.is_compressed_sound_table, F, rep, "C02.4")
     # the graph route resolves every link through the two end indices of the finished graph (a node end that is not indexed is a link lost)
     rep.run(dt_graph.finish_tables, F, rep, "C02.4")
     rep.run(dt_graph.find_link_table, F, rep, "C02.4")
@@ -41,3 +42,6 @@ def run(F, rep):
     rep.run(common.run_store_kmer_lemmas, F, rep, "C02.6")
     # the entry point that finds the extensions itself: "the sole extension on both facing sides" is decided on the bytes it computes
     rep.run(dt_compress.entry_points_table, F, rep, "C02.7")
+    # the statement quantifies over read sets and count thresholds: the k-mer table the graph is built from is filter_kmers' (pass tiling,
+    # grouping, canonicalisation, emission)
+    rep.run(dt_filter.filter_tables, F, rep, "C02.5")
